@@ -9,10 +9,12 @@ import subprocess
 
 import vlib
 
-DECLS = "type A;\npred p(A);\npred q(A);\npred s(A);\n"
-ONE = "rule one {\n    if p(x);\n    then q(x);\n}\n"
-ONE_REV = "rule one {\n    if q(x);\n    then p(x);\n}\n"
-TWO = "rule two {\n    if p(x);\n    then s(x);\n}\n"
+DECLS = "type A;\npred e(A, A);\npred q(A, A);\npred m(A);\npred s(A);\n"
+ONE = "rule one {\n    if e(x, y);\n    then q(y, x);\n}\n"
+ONE_REV = "rule one {\n    if q(x, y);\n    then e(y, x);\n}\n"
+# rule two looks e up by its second column: adding it changes the column order of e's index and thereby the
+# environment and the loop nest of the *unchanged* rule one (its flat rule stays the same, its library does not)
+TWO = "rule two {\n    if m(z);\n    if e(_, z);\n    then s(z);\n}\n"
 VERSIONS = {
     "v1": DECLS + ONE,
     "v2": DECLS + ONE_REV,
